@@ -184,7 +184,11 @@ def main(tier, replay=None, selftest=False):
     ck.add_tlc(resp)
     vlib.tlc_must_pass(resp)
     sj = resp["cases"]["SCHEMA"][0]
-    docs = list({vlib.stable_hash(d): d for d in resp["cases"]["DOC"]}.values())
+    # ... and with three named fragments (fragments that share a third one)
+    resp3 = vlib.run_tlc("MC_Progs", "MC_Progs_sim3.cfg", simulate=(1500 if tier == "quick" else 15000), depth=90, timeout=2400)
+    ck.add_tlc(resp3)
+    vlib.tlc_must_pass(resp3)
+    docs = list({vlib.stable_hash(d): d for d in resp["cases"]["DOC"] + resp3["cases"].get("DOC", [])}.values())
     docs, stats = progcheck.covering_sample(sj, docs, nprog, rng)
     ck.notes["sampling"] = stats
     # schema: universe + inputs
